@@ -440,6 +440,111 @@ theorem C17_align_nnz [LinearOrder K] [IsStrictOrderedRing K] (rows cols : Nat) 
   obtain ⟨e, he, rfl⟩ := List.mem_map.mp hk'
   exact full_covers rows cols s (hwf s hs).1 (hwf s hs).2 hlen e.1 ((hwf s' hs').2 e he)
 
+/-! ### structured special values: shear-free tensors (round 4, class H) -/
+
+/-- **C17, shear-free tensors without `eigh`.**  For `diag(a)` and ANY ordering `(i, j, k)` of the three axes (all six,
+    including the two 3-cycles; no assumption on the values, so repeated and zero values are covered) the frame whose
+    COLUMN `m` is the axis of the `m`-th value rebuilds `diag(a)`, is orthonormal and right-handed.  This is the statement a
+    shortcut for already-diagonal tensors has to satisfy; the harness generates all six orders in every run. -/
+theorem fromEigens_closed (vals d0 d1 d2 : V3 K) :
+    fromEigens vals d0 d1 d2 = mmul (mmul (ofCols d0 d1 d2) (diag3 vals)) (transpose (ofCols d0 d1 d2)) := by
+  obtain ⟨x, y, z⟩ := vals
+  rfl
+
+/-- the six orderings of the three axes -/
+def orders3 : List (Nat × Nat × Nat) := [(0, 1, 2), (0, 2, 1), (1, 0, 2), (1, 2, 0), (2, 0, 1), (2, 1, 0)]
+
+theorem C17_diag_shortcut (a : V3 K) (i j k : Nat) (h : (i, j, k) ∈ orders3) :
+    let p := diagShortcut true a i j k
+    fromEigens p.vals p.d0 p.d1 p.d2 = diag3 a
+    ∧ mmul (transpose (ofCols p.d0 p.d1 p.d2)) (ofCols p.d0 p.d1 p.d2) = one3
+    ∧ det3 (ofCols p.d0 p.d1 p.d2) = 1 := by
+  obtain ⟨x, y, z⟩ := a
+  simp only [orders3, List.mem_cons, Prod.mk.injEq, List.mem_nil_iff, or_false] at h
+  rcases h with ⟨rfl, rfl, rfl⟩ | ⟨rfl, rfl, rfl⟩ | ⟨rfl, rfl, rfl⟩ | ⟨rfl, rfl, rfl⟩ | ⟨rfl, rfl, rfl⟩ | ⟨rfl, rfl, rfl⟩ <;>
+    (intro p; refine ⟨?_, ?_, ?_⟩ <;> (try rw [fromEigens_closed]) <;> (try apply m3_ext) <;> (try apply v3_ext) <;>
+      simp [p, diagShortcut, axis3, comp3, ofCols, col0, col1, transpose, mmul, dot, cross, diag3, one3, det3, V3.det])
+
+/-- The frame `np.eye(3)[σ]` (axis of the `m`-th value in ROW `m`) encodes the inverse permutation: it is still right for the
+    identity and the three swaps (self-inverse) … -/
+theorem C17_diag_shortcut_rows_selfinverse (a : V3 K) (i j k : Nat)
+    (h : (i, j, k) ∈ [(0, 1, 2), (0, 2, 1), (1, 0, 2), (2, 1, 0)]) :
+    let p := diagShortcut false a i j k
+    fromEigens p.vals p.d0 p.d1 p.d2 = diag3 a := by
+  obtain ⟨x, y, z⟩ := a
+  simp only [List.mem_cons, Prod.mk.injEq, List.mem_nil_iff, or_false] at h
+  rcases h with ⟨rfl, rfl, rfl⟩ | ⟨rfl, rfl, rfl⟩ | ⟨rfl, rfl, rfl⟩ | ⟨rfl, rfl, rfl⟩ <;>
+    (intro p; rw [fromEigens_closed]; apply m3_ext <;> apply v3_ext <;>
+      simp [p, diagShortcut, axis3, comp3, ofCols, col0, col1, transpose, mmul, dot, cross, diag3])
+
+/-- … and wrong for the 3-cycles, although the values are sorted and the frame is orthonormal and right-handed:
+    `diag(2, 1, 3)` (descending order z, x, y) is rebuilt as `diag(1, 3, 2)` (seeded change C17-8).  Only the clause
+    "rebuilds the original tensor" sees it. -/
+theorem C17_diag_shortcut_rows_counterexample :
+    let p := diagShortcut false (⟨2, 1, 3⟩ : V3 ℚ) 2 0 1
+    (p.vals.y ≤ p.vals.x ∧ p.vals.z ≤ p.vals.y)
+    ∧ mmul (transpose (ofCols p.d0 p.d1 p.d2)) (ofCols p.d0 p.d1 p.d2) = one3
+    ∧ det3 (ofCols p.d0 p.d1 p.d2) = 1
+    ∧ fromEigens p.vals p.d0 p.d1 p.d2 = diag3 ⟨1, 3, 2⟩
+    ∧ fromEigens p.vals p.d0 p.d1 p.d2 ≠ diag3 ⟨2, 1, 3⟩ := by
+  decide +kernel
+
+/-! ### flattened keys of sparse cells (round 4, class G) -/
+
+/-- **C17, aligning by flattened keys.**  In exact arithmetic the flattened position `row · n_col + col` orders the cells of an
+    `n_row × n_col` matrix exactly as the row-major order of `unionKeys` does (and is injective), whatever the shape: an
+    `align_nnz` that places entries by searching flattened keys agrees with the model as long as the keys are computed
+    without wrap-around. -/
+theorem C17_flat_key_order (cols : Nat) (a b : Nat × Nat) (ha : a.2 < cols) (hb : b.2 < cols) :
+    (flatKey cols a < flatKey cols b ↔ keyLt a b) ∧ (flatKey cols a = flatKey cols b ↔ a = b) := by
+  obtain ⟨i, j⟩ := a
+  obtain ⟨i', j'⟩ := b
+  simp only [flatKey, keyLt] at *
+  have step : ∀ p q : Nat, p < q → p * cols + cols ≤ q * cols := by
+    intro p q hpq
+    have := Nat.mul_le_mul_right cols (Nat.succ_le_of_lt hpq)
+    simpa [Nat.succ_mul] using this
+  constructor
+  · constructor
+    · intro h
+      rcases Nat.lt_trichotomy i i' with hlt | heq | hgt
+      · exact Or.inl hlt
+      · subst heq
+        exact Or.inr ⟨rfl, by omega⟩
+      · have := step i' i hgt
+        omega
+    · rintro (hlt | ⟨rfl, hlt⟩)
+      · have := step i i' hlt
+        omega
+      · omega
+  · constructor
+    · intro h
+      rcases Nat.lt_trichotomy i i' with hlt | heq | hgt
+      · have := step i i' hlt
+        omega
+      · subst heq
+        have : j = j' := by omega
+        subst this
+        rfl
+      · have := step i' i hgt
+        omega
+    · intro h
+      cases h
+      rfl
+
+/-- In the int32 index dtype scipy uses for a 70000 × 70000 matrix the keys wrap inside row 30678: the cell `(30678, 23648)`
+    follows `(30678, 23647)` in row-major order but its key is the most negative int32, below the key of `(0, 0)`, so a binary
+    search on the keys misplaces it (seeded change C17-7).  Below 2³¹ cells nothing wraps: the last cell of a 46340 × 46341
+    matrix keeps its key, the last cell of 46341 × 46341 does not. -/
+theorem C17_flat_key_wrap_counterexample :
+    keyLt (30678, 23647) (30678, 23648)
+    ∧ flatKeyWrap 32 70000 (30678, 23647) = 2147483647
+    ∧ flatKeyWrap 32 70000 (30678, 23648) = -2147483648
+    ∧ flatKeyWrap 32 70000 (30678, 23648) < flatKeyWrap 32 70000 (0, 0)
+    ∧ flatKeyWrap 32 46341 (46340, 46340) < 0
+    ∧ flatKeyWrap 32 46341 (46339, 46340) = 2147441939 := by
+  decide +kernel
+
 /-! ### non-vacuity -/
 
 /-- a non-trivial permutation: the cycle (0 3 1)(2 5) -/
@@ -482,5 +587,19 @@ def ms0 : List (Sp ℚ) := [[((0, 0), -3), ((1, 1), 0)], [((0, 1), 5)]]
 example : ∀ s ∈ ms0, (s.map (·.1)).Nodup ∧ ∀ e ∈ s, e.1.1 < 2 ∧ e.1.2 < 2 := by decide
 example : alignNnz 4 ms0 = [[((0, 0), -3), ((0, 1), 0), ((1, 1), 0)], [((0, 0), 0), ((0, 1), 5), ((1, 1), 0)]] := by
   decide +kernel
+
+/-- the 3-cycle order of `diag(2, 1, 3)` (z, x, y): the column frame rebuilds it (the row frame does not, see above) -/
+example : fromEigens (diagShortcut true (⟨2, 1, 3⟩ : V3 ℚ) 2 0 1).vals (diagShortcut true (⟨2, 1, 3⟩ : V3 ℚ) 2 0 1).d0
+    (diagShortcut true (⟨2, 1, 3⟩ : V3 ℚ) 2 0 1).d1 (diagShortcut true (⟨2, 1, 3⟩ : V3 ℚ) 2 0 1).d2 = diag3 ⟨2, 1, 3⟩ :=
+  (C17_diag_shortcut (⟨2, 1, 3⟩ : V3 ℚ) 2 0 1 (by decide)).1
+example : (diagShortcut true (⟨2, 1, 3⟩ : V3 ℚ) 2 0 1).vals = ⟨3, 2, 1⟩ := by decide +kernel
+example : fromEigens (diagShortcut false (⟨1, 3, 2⟩ : V3 ℚ) 1 0 2).vals (diagShortcut false (⟨1, 3, 2⟩ : V3 ℚ) 1 0 2).d0
+    (diagShortcut false (⟨1, 3, 2⟩ : V3 ℚ) 1 0 2).d1 (diagShortcut false (⟨1, 3, 2⟩ : V3 ℚ) 1 0 2).d2 = diag3 ⟨1, 3, 2⟩ :=
+  C17_diag_shortcut_rows_selfinverse (⟨1, 3, 2⟩ : V3 ℚ) 1 0 2 (by decide)
+
+/-- the last cells of a 70000 × 70000 matrix: exact keys keep the row-major order although they exceed 2³² -/
+example : flatKey 70000 (69998, 69999) < flatKey 70000 (69999, 0) :=
+  (C17_flat_key_order 70000 (69998, 69999) (69999, 0) (by decide) (by decide)).1.mpr (Or.inl (by decide))
+example : flatKey 70000 (69999, 0) > 2 ^ 32 := by decide
 
 end Femio.C17
